@@ -72,6 +72,57 @@ func rangeIndexLoops(fn *ssa.Function) []*rangeLoop {
 		l.Blocks = naturalLoop(b)
 		out = append(out, l)
 	}
+	// classic counting loops: for i := 0; i < len(X); i++ { ... X[i] ... }
+	for _, b := range fn.Blocks {
+		if len(b.Instrs) == 0 {
+			continue
+		}
+		ifi, ok := b.Instrs[len(b.Instrs)-1].(*ssa.If)
+		if !ok {
+			continue
+		}
+		cmp, ok := ifi.Cond.(*ssa.BinOp)
+		if !ok || cmp.Op != token.LSS {
+			continue
+		}
+		phi, ok := cmp.X.(*ssa.Phi)
+		if !ok || phi.Block() != b {
+			continue
+		}
+		lenCall, ok := cmp.Y.(*ssa.Call)
+		if !ok {
+			continue
+		}
+		bi, ok := lenCall.Call.Value.(*ssa.Builtin)
+		if !ok || bi.Name() != "len" {
+			continue
+		}
+		blocks := naturalLoop(b)
+		initOK, incOK := false, true
+		for i, e := range phi.Edges {
+			pred := b.Preds[i]
+			if !blocks[pred] {
+				if c, ok := constInt(e); ok && c == 0 {
+					initOK = true
+				} else {
+					incOK = false
+				}
+				continue
+			}
+			inc, ok := e.(*ssa.BinOp)
+			if !ok || inc.Op != token.ADD || inc.X != ssa.Value(phi) {
+				incOK = false
+				continue
+			}
+			if one, ok := constInt(inc.Y); !ok || one != 1 {
+				incOK = false
+			}
+		}
+		if !initOK || !incOK {
+			continue
+		}
+		out = append(out, &rangeLoop{Header: b, Body: b.Succs[0], Done: b.Succs[1], Len: lenCall, X: lenCall.Call.Args[0], Index: phi, Blocks: blocks})
+	}
 	return out
 }
 
@@ -864,7 +915,16 @@ func ruleLPPipe(r *Run) {
 
 func isIndexOf(addr ssa.Value, l *rangeLoop) bool {
 	ia, ok := addr.(*ssa.IndexAddr)
-	return ok && ia.X == l.X && ia.Index == l.Index
+	if !ok || ia.Index != l.Index {
+		return false
+	}
+	if ia.X == l.X {
+		return true
+	}
+	// the slice may be re-read from the same field/variable on every use (no CSE in go/ssa)
+	_, isLoadA := ia.X.(*ssa.UnOp)
+	_, isLoadB := l.X.(*ssa.UnOp)
+	return isLoadA && isLoadB && describe(ia.X, 0) == describe(l.X, 0)
 }
 
 func isConstIndexOf(addr ssa.Value, x ssa.Value, idx int64) bool {
